@@ -59,7 +59,14 @@ def cfg : Cfg :=
     soutFactor := soutIdxFactor.getD 1 0
     pctScale := pctScale
     svmemLayout := svmemFields.zip svmemArgs
-    sswapLayout := sswapFields.zip sswapArgs }
+    sswapLayout := sswapFields.zip sswapArgs
+    sysCOrder := sysinfoCMembers
+    sysUnpack := sysinfoUnpack
+    sysTotalTimesUnit := sysinfoTimesUnit.contains "total"
+    sysFreeTimesUnit := sysinfoTimesUnit.contains "free"
+    primesTotalPhymem := phymemPrimed != ""
+    phymemField := phymemPrimed
+    memPercentUsesCache := memPercentTotalExpr == "_TOTAL_PHYMEM or virtual_memory().total" }
 
 /-- shape facts that are not parameters of the model: the number of keys per variable (an extra
     or a dropped key changes the algorithm) and `watermark_low *= PAGESIZE` -/
@@ -74,5 +81,7 @@ def shapeOk : Bool :=
   && missingMap.length == 6
   && wmTimesPagesize
   && svmemFields.length == svmemArgs.length && sswapFields.length == sswapArgs.length
+  -- every slot of the native tuple is an unsigned C integer (`k` unsigned long, `I` unsigned int)
+  && sysinfoCFormat == "(kkkkkkI)" && sysinfoTimesUnit == ["total", "free"]
 
 end Psutil.C08
